@@ -9,7 +9,7 @@ import numpy as np
 import dataiter as di
 from hypothesis import strategies as st
 
-from . import build, gen
+from . import build, gen, model
 from .runner import Violation
 
 ID = "C01"
@@ -407,8 +407,8 @@ def _check(plan, ctx):
                     result, rnames = _transform(op, data, other, s, names, n, z=pool[(s["i"] + s["j"] + s["a"]) % len(pool)][0])
             except _Skip:
                 continue
-            except Violation:
-                raise
+            except (Violation, NameError, UnboundLocalError):
+                raise                                  # (a NameError is the harness's own, never the library's answer)
             except Exception as e:
                 ctx.reject(f"{op} raises on these operands: {type(e).__name__}")
                 data._group_colnames = ()
@@ -522,7 +522,7 @@ def _transform(op, x, y, s, names, n, z=None):
                 x._group_colnames = ()
                 raise _Skip()
             x._group_colnames = ()
-            groups = len(set(map(repr, build.cells(x[first]))))
+            groups = len(model.groups([build.cells(x[first])]))      # 0.0 and -0.0 are one key
             if twice or groups > 1:
                 raise Violation("grouped modify stored a group-wise result whose length differs from its group",
                                 nrow=n, groups=groups, stored=len(dict.__getitem__(out, "bad")))
